@@ -161,7 +161,7 @@ def frameOfGroup (c : Codec) (g : List Pkt) : Option SFrame := do
   match g, ds with
   | p0 :: _, (a0, b0, pl0) :: rest =>
     let sameTs := g.all (·.ts == p0.ts)
-    let nonEmpty := c == .av1 || ds.all (fun (_, _, pl) => !pl.isEmpty)
+    let nonEmpty := c == .av1 || !pl0.isEmpty          -- VP8/VP9: the opening packet carries data
     let key := keyish c a0 b0 pl0
     let noLateKey := key || ds.all (fun (a, b', pl) => !(keyish c a b' pl && startish c a b'))
     let contOk := match c with
@@ -193,6 +193,7 @@ def judgeW (op : Op) (out : List String) : String :=
   match out with
   | "W" :: st :: nerr :: d :: "B" :: _flen :: _fhash :: "T" :: k :: rest =>
     if d != "D1" then "bad-judge" else
+    if st.startsWith "p" then "violated writer-panicked" else   -- the process dies instead of producing the file
     let cfg := op.cfg
     if cfg.den == 0 || cfg.num == 0 then "ok"        -- not a frame rate: outside the property
     else
@@ -205,7 +206,7 @@ def judgeW (op : Op) (out : List String) : String :=
     | none => "bad-judge"
     | some (tee, rd) =>
       if wf.isSome && (st != "ok" || nerr != "0") then "violated writer-failed-on-valid-stream" else
-      if st != "ok" then "ok"                        -- panic on a malformed packet: outside C32 (see C30)
+      if st != "ok" then "ok"
       else
       match rd with
       | "R" :: "ok" :: fcc :: w :: h :: den :: num :: nf :: n :: rest2 =>
